@@ -4,7 +4,8 @@
 From Coq Require Import ZArith List String Bool.
 From NadaV.PyMini Require Import PyMini.
 From NadaV.Gen Require Import GenScalar.
-From NadaV.Model Require Import Rules.
+From NadaV.Model Require Import Rules Corr Mir Surface Trace Compile.
+From NadaV.Spec Require Taint.
 From NadaV.Spec Require Import TypingSpec.
 From NadaV.Proofs Require Import C03Proofs.
 Import ListNotations.
@@ -33,3 +34,19 @@ Print Assumptions C03_rules_unary_random.
 Example C03_nonvacuous :
   rule2 G OLt (MSecret, BInt) (MPublic, BInt) = Emit "LessThan" (MSecret, BBool) [("left", 0%Z); ("right", 1%Z)].
 Proof. vm_compute. reflexivity. Qed.
+
+(* Part (b), graph level.  FULL statement over the model -- decided per program: [Taint.C03b m] is
+   evaluated in Coq on every MIR the real compiler emits; not proved for all programs. *)
+Definition C03_graph_statement : Prop :=
+  forall p m, run G p = Ok m -> Taint.C03b m = true.
+
+(* it is FALSE without the hypothesis that nada_fn annotations are truthful (known finding
+   C03/declass:untruthful-annotation): the DSL never compares an annotation with the actual
+   argument, so a function annotated public applied to a secret yields a public-typed result *)
+Definition untruthful_program : program :=
+  {| p_stmts := [(SDef "ident" [("e", (IScalar (MPublic, BInt)))] (IScalar (MPublic, BInt)) [(SLet "s" (RBin OAdd "e" "e"))] "s"); (SLet "x" (RInput "x" "P0" "" (IScalar (MSecret, BInt)))); (SLet "r" (RCall "ident" ["x"] []))]; p_outs := [{| out_name := "o"; out_party := "P0"; out_var := "r" |}] |}.
+
+Theorem C03_graph_refuted_untruthful_annotation :
+  exists p m, run G p = Ok m /\ Taint.C03b m = false.
+Proof. exists untruthful_program. eexists. split; [vm_compute; reflexivity | vm_compute; reflexivity]. Qed.
+Print Assumptions C03_graph_refuted_untruthful_annotation.
